@@ -131,7 +131,11 @@ class Explorer(object):
     def _violation(self, path, msgs, kind):
         """Returns True if something other than a known finding failed."""
         new = False
+        hist = getattr(self.scn, 'history', None)
+        tags = hist() if hist else None
         for m in msgs:
+            if tags:
+                m = '%s [history: %s]' % (m, ', '.join(tags))
             d = {'scenario': self.scn.name, 'kind': kind, 'message': m,
                  'path': list(path)}
             k = self.known(d) if self.known else None
@@ -383,6 +387,10 @@ def replay(scn, labels, check=True):
         ne, nm, nr = drain()
         if check:
             v = scn.check_step(pre, snap, c, Ctx(path, ne, nm, nr, False))
+            hist = getattr(scn, 'history', None)
+            tags = hist() if hist else None
+            if tags:
+                v = ['%s [history: %s]' % (m, ', '.join(tags)) for m in v]
             if v:
                 out['violations'].extend(v)
                 hashes.append(None)
